@@ -1376,12 +1376,27 @@ func (w *c13World) connMonitor(out *vh.Out, op string, haveResolver, lookupFaile
 	if !tr.anyUsable && (lvl == module.TLSAuthenticated || (hs && err != nil)) {
 		out.Violation("C13/unusable-only-not-neutral", op, detail)
 	}
+	// the authenticated RRset that governs this MX was treated as absent: the connection it
+	// authenticates is let through without being authenticated (the same shortcut lets a plaintext or
+	// non-matching connection through — the two rules above)
+	if hs && tr.matched() && err == nil && lvl != module.TLSAuthenticated {
+		out.Violation("C13/authenticated-records-ignored", op, detail)
+	}
 }
 
 // op `check`: CheckConn after a discovery that ended in a given way — with the records `recs` (a signed
 // RRset under the usual name of a secure host), or in one of c13FutErrs. The discovery is the real one,
 // started by PrepareConn; host: the spelling of the MX host name both methods are handed.
 func (w *c13World) checkCase(out *vh.Out, haveResolver bool, fut string, recs []c13Rec, ck string, hs bool, host int) {
+	w.checkCaseA(out, haveResolver, fut, recs, ck, hs, host, "s")
+}
+
+// the address states of a host that is "secure": the address RRset the code consults is signed —
+// whatever the AD bit of the other address answer (c13AddrStates)
+const c13SecureLetters = "sdDPu68"
+
+// astate: the address state of the secure host the RRset is published for (fut == "ok" only)
+func (w *c13World) checkCaseA(out *vh.Out, haveResolver bool, fut string, recs []c13Rec, ck string, hs bool, host int, astate string) {
 	ch := w.chains[ck]
 	var toks []string
 	for _, r := range recs {
@@ -1389,7 +1404,14 @@ func (w *c13World) checkCase(out *vh.Out, haveResolver bool, fut string, recs []
 	}
 	class := "ok"
 	failing := false
-	z := c13Zone{a: "s", c: "-", q: "-", r: "X", m: "s", f: 2, recsM: recs}
+	if st := c13AddrStates[astate]; len(astate) != 1 || !strings.Contains(c13SecureLetters, astate) || st.fails() || !st.consultedAD() {
+		panic("check: not a secure address state: " + astate)
+	}
+	acode := ""
+	if astate != "s" && fut == "ok" {
+		acode = ";a" + astate
+	}
+	z := c13Zone{a: astate, c: "-", q: "-", r: "X", m: "s", f: 2, recsM: recs}
 	if len(recs) == 0 {
 		z.m = "e"
 	}
@@ -1404,7 +1426,7 @@ func (w *c13World) checkCase(out *vh.Out, haveResolver bool, fut string, recs []
 			panic("unknown fut " + fut)
 		}
 	}
-	op := strings.TrimRight(fmt.Sprintf("C13 check z=%s;%s%s %s %s %s %s | %s", ck, fut, c13SpellCode(host), c13b(haveResolver), class, c13b(hs), ch.token(), strings.Join(toks, " ")), " ")
+	op := strings.TrimRight(fmt.Sprintf("C13 check z=%s;%s%s%s %s %s %s %s | %s", ck, fut, acode, c13SpellCode(host), c13b(haveResolver), class, c13b(hs), ch.token(), strings.Join(toks, " ")), " ")
 
 	d := w.dns
 	d.set(w.script(z, ch))
@@ -1434,6 +1456,9 @@ func (w *c13World) checkCase(out *vh.Out, haveResolver bool, fut string, recs []
 	out.Corr(op, obs)
 	w.connMonitor(out, op, haveResolver, failing && class != "e:nf", !failing, recs, ch, hs, lvl, err, panicked)
 	out.Stat("check/fut:" + fut)
+	if fut == "ok" {
+		out.Stat("check/host-address-state:" + astate)
+	}
 	out.Stat("check/outcome:" + obs)
 	out.Stat("check/resolver:" + c13b(haveResolver))
 	out.Stat(fmt.Sprintf("check/host-spelling:%d", host))
@@ -1467,10 +1492,14 @@ func TestVerifC13CheckConn(t *testing.T) {
 				}
 			}
 			z, host, perr := c13ParseSpell(z)
+			astate := "s"
+			if n := len(z); n == 3 && len(z[2]) == 2 && z[2][0] == 'a' && strings.Contains(c13SecureLetters, z[2][1:]) {
+				astate, z = z[2][1:], z[:2]
+			}
 			if perr != nil || len(z) != 2 || w.chains[z[0]] == nil {
 				t.Fatalf("cannot replay %q", op)
 			}
-			w.checkCase(out, toks[3] == "1", z[1], recs, z[0], toks[5] == "1", host)
+			w.checkCaseA(out, toks[3] == "1", z[1], recs, z[0], toks[5] == "1", host, astate)
 		}
 		return
 	}
@@ -1490,6 +1519,23 @@ func TestVerifC13CheckConn(t *testing.T) {
 				}
 			}
 		}
+	}
+	// one AD bit per answer: the RRset of a host whose consulted address RRset is signed (dual-stack with
+	// a DNS64-synthesised AAAA RRset, failing AAAA lookup, AAAA only, ...) — plaintext, a non-matching and
+	// a matching certificate, unusable records only
+	for li, a := range c13SecureLetters[1:] {
+		h := (li + int(vh.Seed())) % len(c13HostSpellings)
+		eeL := []c13Rec{{usage: 3, sel: 1, mt: 1, target: 'L', dsel: 1, dmt: 1}}
+		eeN := []c13Rec{{usage: 3, sel: 0, mt: 2, target: 'N', dsel: 0, dmt: 2}}
+		taI := []c13Rec{{usage: 2, sel: 0, mt: 1, target: 'I', dsel: 0, dmt: 1}}
+		un := []c13Rec{{usage: 1, sel: 1, mt: 1, target: 'L', dsel: 1, dmt: 1}}
+		w.checkCaseA(out, true, "ok", eeL, "E", false, 0, string(a))
+		w.checkCaseA(out, true, "ok", un, "L", false, h, string(a))
+		w.checkCaseA(out, true, "ok", eeN, "LIR", true, h, string(a))
+		w.checkCaseA(out, true, "ok", eeL, "LIR", true, 0, string(a))
+		w.checkCaseA(out, true, "ok", taI, "W", true, 0, string(a))
+		w.checkCaseA(out, true, "ok", taI, "LI", true, h, string(a))
+		w.checkCaseA(out, true, "ok", un, "LIR", true, 0, string(a))
 	}
 	n := vh.N(4000) / 4
 	for i := 0; i < n; i++ {
@@ -1527,7 +1573,11 @@ func TestVerifC13CheckConn(t *testing.T) {
 		if rng.Chance(50) {
 			host = rng.Intn(len(c13HostSpellings))
 		}
-		w.checkCase(out, !rng.Chance(8), fut, recs, ck, hs, host)
+		astate := "s"
+		if fut == "ok" && rng.Chance(35) {
+			astate = string(c13SecureLetters[1+rng.Intn(len(c13SecureLetters)-1)])
+		}
+		w.checkCaseA(out, !rng.Chance(8), fut, recs, ck, hs, host, astate)
 	}
 }
 
@@ -1538,8 +1588,15 @@ func TestVerifC13CheckConn(t *testing.T) {
 //	a: state of the MX host name — F lookup fails, X does not exist, N exists without address,
 //	   s address records signed (AD), i address records insecure, 6 AAAA only and signed,
 //	   Q no A record and the AAAA lookup fails
+//	   dual-stack and single-family hosts with ONE AD BIT PER ANSWER (c13AddrStates): d A and AAAA both
+//	   signed, D signed A + AAAA without AD (DNS64 synthesis), b A without AD + signed AAAA, B both
+//	   without AD, P / p signed / insecure A and the AAAA lookup fails, u signed A + empty AAAA answer
+//	   without AD, v insecure A + empty AAAA answer with AD, 7 AAAA only without AD, 8 AAAA only and
+//	   signed while the empty A answer has no AD, 9 the same with an insecure AAAA, R the A lookup
+//	   fails while AAAA would answer
 //	c: alias — "-" none, or two letters: is the alias record signed (s/i), and the state of the
-//	   canonical name: s signed addresses, i insecure addresses, X does not exist, F lookup fails
+//	   canonical name: s signed addresses, i insecure addresses, X does not exist, F lookup fails,
+//	   or any other letter of `a`
 //	q: the CNAME-type query for the MX name — "-" answers normally, F fails, X name error
 //	r: TLSA RRset under the canonical name, m: TLSA RRset under the MX name —
 //	   X no such name, F lookup fails, s signed with records, i insecure with records, e signed and empty
@@ -1600,6 +1657,45 @@ func c13ParseZone(code string) (c13Zone, error) {
 	return z, nil
 }
 
+// c13AddrSt: what the A question and the AAAA question for a host are answered with — each answer
+// with its own AD bit, as a validating resolver reports it (RFC 4035 §3.2.3: AD covers the RRsets of
+// THAT answer). aHas / sHas: the answer holds an address record; aFail / sFail: the lookup fails.
+type c13AddrSt struct {
+	aFail, aHas, aAD bool
+	sFail, sHas, sAD bool
+}
+
+var c13AddrStates = map[string]c13AddrSt{
+	"F": {aFail: true, sFail: true},
+	"N": {aAD: true, sAD: true},
+	"s": {aHas: true, aAD: true, sAD: true},
+	"i": {aHas: true},
+	"6": {aAD: true, sHas: true, sAD: true},
+	"Q": {aAD: true, sFail: true, sAD: true},
+	// one AD bit per answer
+	"d": {aHas: true, aAD: true, sHas: true, sAD: true},
+	"D": {aHas: true, aAD: true, sHas: true},
+	"b": {aHas: true, sHas: true, sAD: true},
+	"B": {aHas: true, sHas: true},
+	"P": {aHas: true, aAD: true, sFail: true},
+	"p": {aHas: true, sFail: true},
+	"u": {aHas: true, aAD: true},
+	"v": {aHas: true, sAD: true},
+	"7": {aAD: true, sHas: true},
+	"8": {sHas: true, sAD: true},
+	"9": {sHas: true},
+	"R": {aFail: true, sHas: true, sAD: true},
+}
+
+// the letters added with the per-answer AD bits (the others are the states c13AllZones enumerates)
+const c13DualLetters = "dDbBPpuv789R"
+
+// fails: the address lookup ends in an error (A fails; no A record and AAAA fails or is empty);
+// consultedAD: the AD bit of the address RRset the code is documented to consult — the A RRset if the
+// host has A records, else the AAAA RRset
+func (st c13AddrSt) fails() bool       { return st.aFail || (!st.aHas && (st.sFail || !st.sHas)) }
+func (st c13AddrSt) consultedAD() bool { return (st.aHas && st.aAD) || (!st.aHas && st.sAD) }
+
 // c13Answer is the scripted response to one (name, type) question; questions without an entry get
 // NXDOMAIN.
 type c13Answer struct {
@@ -1632,23 +1728,24 @@ func (w *c13World) script(z c13Zone, ch *c13Chain) map[string]c13Answer {
 		with := func(ad bool, rrs ...miekgdns.RR) c13Answer {
 			return c13Answer{ad: ad && adPre, rrs: append(append([]miekgdns.RR(nil), pre...), rrs...)}
 		}
-		switch st {
-		case "F":
-			sc[A], sc[AAAA] = fail, fail
-		case "X":
-		case "N":
-			sc[A], sc[AAAA] = with(true), with(true)
-		case "s":
-			sc[A], sc[AAAA] = with(true, aRR(owner)), with(true)
-		case "i":
-			sc[A], sc[AAAA] = with(false, aRR(owner)), with(false)
-		case "6":
-			sc[A], sc[AAAA] = with(true), with(true, aaaaRR(owner))
-		case "Q":
-			sc[A], sc[AAAA] = with(true), fail
-		default:
+		if st == "X" {
+			return
+		}
+		as, known := c13AddrStates[st]
+		if !known {
 			panic("bad address state " + st)
 		}
+		one := func(failing, has, ad bool, rr miekgdns.RR) c13Answer {
+			switch {
+			case failing:
+				return fail
+			case has:
+				return with(ad, rr)
+			}
+			return with(ad)
+		}
+		sc[A] = one(as.aFail, as.aHas, as.aAD, aRR(owner))
+		sc[AAAA] = one(as.sFail, as.sHas, as.sAD, aaaaRR(owner))
 	}
 	cnameQ := c13QKey(c13MXFQ, miekgdns.TypeCNAME)
 	if z.c == "-" {
@@ -1658,7 +1755,7 @@ func (w *c13World) script(z c13Zone, ch *c13Chain) map[string]c13Answer {
 			sc[cnameQ] = fail
 		case "X":
 		default:
-			sc[cnameQ] = c13Answer{ad: z.a != "i"}
+			sc[cnameQ] = c13Answer{ad: c13AddrStates[z.a].consultedAD()}
 		}
 	} else {
 		alias := &miekgdns.CNAME{Hdr: hdr(c13MXFQ, miekgdns.TypeCNAME), Target: c13Canon}
@@ -1773,6 +1870,33 @@ func (d *c13DNS) ServeDNS(wr miekgdns.ResponseWriter, m *miekgdns.Msg) {
 	_ = wr.WriteMsg(reply)
 }
 
+// addrTok: the scripted answer to an address question as the model's AddrAns token
+// (`e:nf | e:ot | ok:<ad>:<E|S|O>`), and the owner name of its last address record. The server is on
+// loopback, so the resolver keeps the AD bit it is sent.
+func (d *c13DNS) addrTok(qname string, qtype uint16) (tok, owner string) {
+	d.mu.Lock()
+	ans, ok := d.script[c13QKey(qname, qtype)]
+	d.mu.Unlock()
+	switch {
+	case !ok || ans.rcode == miekgdns.RcodeNameError:
+		return "e:nf", ""
+	case ans.rcode != 0:
+		return "e:ot", ""
+	}
+	for _, rr := range ans.rrs {
+		if rr.Header().Rrtype == qtype {
+			owner = rr.Header().Name
+		}
+	}
+	switch owner {
+	case "":
+		return "ok:" + c13b(ans.ad) + ":E", owner
+	case qname:
+		return "ok:" + c13b(ans.ad) + ":S", owner
+	}
+	return "ok:" + c13b(ans.ad) + ":O", owner
+}
+
 func (d *c13DNS) set(sc map[string]c13Answer) {
 	d.mu.Lock()
 	d.script = sc
@@ -1822,18 +1946,19 @@ func (w *c13World) oracle(d *c13DNS, ch *c13Chain) (ck, cn, trTok, tmTok string,
 func (w *c13World) oracleFor(d *c13DNS, ch *c13Chain, mxfq string) (ck, cn, trTok, tmTok string, rname string) {
 	ctx, cancel := context.WithTimeout(context.Background(), 30*time.Second)
 	defer cancel()
-	adA, rn, err := d.ext.CheckCNAMEAD(ctx, mxfq)
-	rname = rn
-	switch {
-	case err != nil:
-		ck = "e:" + c13LErr(err)
-	case rn == "":
-		ck = "ok:" + c13b(adA) + ":E"
-	case rn == mxfq:
-		ck = "ok:" + c13b(adA) + ":S"
-	default:
-		ck = "ok:" + c13b(adA) + ":O"
+	// the two address answers as the script holds them, each with its own AD bit — NOT the result of
+	// CheckCNAMEAD: how the two are combined is the model's (checkAddr) and the code's business
+	aTok, aOwner := d.addrTok(mxfq, miekgdns.TypeA)
+	sTok, sOwner := d.addrTok(mxfq, miekgdns.TypeAAAA)
+	ck = "x/" + aTok + "/" + sTok
+	rn := aOwner
+	if rn == "" && strings.HasPrefix(aTok, "ok:") {
+		rn = sOwner
 	}
+	if strings.HasPrefix(aTok, "e:") {
+		rn = ""
+	}
+	rname = rn
 	cad, _, err := d.ext.AuthLookupCNAME(ctx, mxfq)
 	if err != nil {
 		cn = "e:" + c13LErr(err)
@@ -1873,13 +1998,17 @@ func c13ZoneTruthOfT(z c13Zone, trusted bool) c13ZoneTruth {
 	if t.alias {
 		final = string(z.c[1])
 	}
-	t.addrFails = final == "F" || final == "N" || final == "Q"
+	as := c13AddrStates[final]
 	t.nameNotExist = final == "X"
-	t.resolvable = final == "s" || final == "i" || final == "6"
+	t.addrFails = !t.nameNotExist && as.fails()
+	t.resolvable = !t.nameNotExist && !t.addrFails
 	if !t.resolvable {
 		return t
 	}
-	finalSigned := trusted && (final == "s" || final == "6")
+	// RFC 7672 §2.2: the host is "secure" iff its address records are authenticated — the RRset the
+	// code is documented to consult: A if the host has A records, else AAAA. The AD bit of the other
+	// answer (a DNS64-synthesised AAAA RRset, an empty answer) says nothing about it.
+	finalSigned := trusted && as.consultedAD()
 	if t.alias {
 		aliasSigned := trusted && z.c[0] == 's'
 		if !(aliasSigned && finalSigned) {
@@ -2001,6 +2130,9 @@ func (w *c13World) discCase(t *testing.T, out *vh.Out, z c13Zone) {
 			if len(gov) > 0 && !within(keys(gov), got) {
 				out.Violation("C13/published-record-not-delivered", op, fmt.Sprintf("published %v, delivered %v", keys(gov), got))
 			}
+			if len(gov) > 0 && len(got) == 0 {
+				out.Violation("C13/authenticated-records-ignored", op, fmt.Sprintf("published %v (authenticated RRset of a host whose consulted address RRset is authenticated), delivered none", keys(gov)))
+			}
 		}
 	}
 	out.Stat("disc/zone-addr:" + z.a)
@@ -2038,6 +2170,26 @@ func c13AllZones() []c13Zone {
 					out = append(out, c13Zone{a: "-", c: c, q: "F", r: r, m: m, f: 2})
 					out = append(out, c13Zone{a: "-", c: c, q: "X", r: r, m: m, f: 2})
 				}
+			}
+		}
+	}
+	return out
+}
+
+// the zone shapes with one AD bit per address answer: every dual-stack / single-family state alone
+// and behind a signed / unsigned alias, with the TLSA RRsets signed, unsigned, absent, failing
+func c13DualZones() []c13Zone {
+	var out []c13Zone
+	for _, a := range c13DualLetters {
+		for _, m := range []string{"X", "F", "s", "i", "e"} {
+			out = append(out, c13Zone{a: string(a), c: "-", q: "-", r: "X", m: m, f: 2})
+		}
+	}
+	for _, sg := range []string{"s", "i"} {
+		for _, a := range c13DualLetters {
+			c := sg + string(a)
+			for _, rmq := range [][3]string{{"s", "s", "-"}, {"s", "X", "-"}, {"X", "s", "-"}, {"i", "s", "-"}, {"F", "s", "-"}, {"s", "s", "F"}, {"s", "s", "X"}} {
+				out = append(out, c13Zone{a: "-", c: c, q: rmq[2], r: rmq[0], m: rmq[1], f: 2})
 			}
 		}
 	}
@@ -2143,6 +2295,12 @@ func TestVerifC13Discover(t *testing.T) {
 		w.fillZoneRecs(rng, &z)
 		w.discCase(t, out, z)
 	}
+	dual := c13DualZones()
+	for _, z := range dual {
+		w.fillZoneRecs(rng, &z)
+		w.discCase(t, out, z)
+	}
+	all = append(all, dual...)
 	if vh.Thorough() {
 		for rep := 0; rep < 3; rep++ {
 			for _, z := range all {
@@ -2513,7 +2671,7 @@ func TestVerifC13Conn(t *testing.T) {
 		return
 	}
 	rng := vh.NewRng(vh.Seed() + 1303).Fork() // Fork: consecutive seeds of vh.NewRng give the same stream shifted by one draw
-	all := c13AllZones()
+	all := append(c13AllZones(), c13DualZones()...)
 	reps := 1
 	if vh.Thorough() {
 		reps = 4
@@ -2572,6 +2730,34 @@ func TestVerifC13Conn(t *testing.T) {
 		w.connCaseX(t, out, pinnedTA, "LI", true, "", h)
 		w.connCaseX(t, out, aliased, "E", false, "", h)
 		w.connCaseX(t, out, aliased, "F", true, "", h)
+	}
+	// one AD bit per answer: the pinned RRset of a host whose consulted address RRset is signed is
+	// enforced whatever the other address answer carries (DNS64-synthesised AAAA without AD, failing
+	// AAAA lookup, empty answers); with the consulted RRset insecure the RRset is not used
+	for li, a := range c13DualLetters {
+		h := (li + int(vh.Seed())) % len(c13HostSpellings)
+		for _, zz := range []c13Zone{pinned, pinnedI, pinnedTA, aliased} {
+			z := zz
+			if z.c == "-" {
+				z.a = string(a)
+			} else {
+				z.c = "s" + string(a)
+			}
+			switch {
+			case zz.recsM == nil: // aliased
+				w.connCaseX(t, out, z, "E", false, "", h)
+				w.connCaseX(t, out, z, "F", true, "", 0)
+			case zz.recsM[0].usage == 2:
+				w.connCaseX(t, out, z, "W", true, "", 0)
+				w.connCaseX(t, out, z, "LI", true, "", h)
+			case zz.recsM[0].target == 'I':
+				w.connCaseX(t, out, z, "LIR", true, "", h)
+			default:
+				w.connCaseX(t, out, z, "E", false, "", 0)
+				w.connCaseX(t, out, z, "L", false, "", h)
+				w.connCaseX(t, out, z, "LIR", true, "", 0)
+			}
+		}
 	}
 	for i, inj := range []string{"E", "L", "D1", "D3", "D5"} {
 		w.connCaseX(t, out, pinned, "E", false, inj, 0)
@@ -3215,7 +3401,7 @@ func TestVerifC13Resolver(t *testing.T) {
 		return
 	}
 	rng := vh.NewRng(vh.Seed() + 1304).Fork()
-	all := c13AllZones()
+	all := append(c13AllZones(), c13DualZones()...)
 	good := c13GoodZones(all)
 	pers := func(list []string) c13Pers {
 		p, err := c13ParsePers(list[rng.Intn(len(list))])
@@ -3875,6 +4061,9 @@ func (w *c13World) attemptCase(out c13Sink, env *c13AttEnv, a c13Att) {
 		if !tr.anyUsable && hs && err != nil {
 			out.Violation("C13/unusable-only-not-neutral", op, detail)
 		}
+		if hs && tr.matched() && err == nil && lvl != module.TLSAuthenticated {
+			out.Violation("C13/authenticated-records-ignored", op, detail)
+		}
 		if err == nil && lvl != module.TLSNone && !hs {
 			out.Violation("C13/conn-level-raised-with-error", op, detail)
 		}
@@ -4165,8 +4354,36 @@ func TestVerifC13Attempt(t *testing.T) {
 			run(c13Att{zone: z, ck: ck, modes: "TTT", pool: 'p', base: 'd', hr: true})
 		}
 	}
+	// (4c) one AD bit per answer: dual-stack / single-family hosts whose consulted address RRset is signed
+	// (the other answer without AD, failing, empty) — the pinned RRset is enforced on a server without
+	// STARTTLS, with a non-matching and with a matching certificate; hosts whose consulted RRset is
+	// insecure — the RRset is not used
+	for li, a := range c13DualLetters {
+		as := c13AddrStates[string(a)]
+		h := (li + int(vh.Seed())) % len(c13HostSpellings)
+		zl := func(i int) c13Zone {
+			z := zoneOf(sets[i]...)
+			z.a = string(a)
+			return z
+		}
+		if as.fails() || !as.consultedAD() {
+			run(c13Att{zone: zl(5), ck: "LIR", modes: "NNN", pool: 'p', base: 'd', hr: true})
+			run(c13Att{zone: zl(5), ck: "LIR", modes: "TTT", pool: "pt"[li%2], base: 'd', host: h, hr: true})
+			run(c13Att{zone: zl(4), ck: "LIR", modes: "TTT", pool: 'p', base: 'd', hr: true})
+			continue
+		}
+		run(c13Att{zone: zl(5), ck: "LIR", modes: "NNN", pool: 'p', base: 'd', host: h, hr: true})
+		run(c13Att{zone: zl(1), ck: "LI", modes: "NNN", pool: 's', base: 'd', hr: true})
+		run(c13Att{zone: zl(5), ck: "LIR", modes: "TTT", pool: "pt"[li%2], base: 'd', hr: true})
+		run(c13Att{zone: zl(4), ck: "LIR", modes: "TTT", pool: 'p', base: 'd', host: h, hr: true})
+		run(c13Att{zone: zl(1), ck: "W", modes: "TTT", pool: 'p', base: 'd', hr: true})
+		run(c13Att{zone: zl(1), ck: "LIR", modes: "TTT", pool: 'p', base: 'd', hr: true})
+		run(c13Att{zone: zl(6), ck: "LI", modes: "TTT", pool: 's', base: 'd', hr: true})
+		za := c13Zone{a: "-", c: "s" + string(a), q: "-", r: "s", m: "X", f: 2, recsR: sets[5]}
+		run(c13Att{zone: za, ck: "LIR", modes: "HTT", pool: 'p', base: 'd', hr: true})
+	}
 	// (5) sampled
-	all := c13AllZones()
+	all := append(c13AllZones(), c13DualZones()...)
 	good := c13GoodZones(all)
 	modeSets := []string{"TTT", "TTT", "TTT", "TTT", "NNN", "HTT", "THT", "TNT", "TRT", "TDT", "TTH", "NTT", "RTT", "DTT", "TTD"}
 	n := vh.N(4000) / 60
